@@ -1149,10 +1149,27 @@ def propagate_toplevel(formula: FNode, env: Optional["pysmt.environment.Environm
                 relevant.add(r)
                 disjoint_set.add(l, r)
 
+    # Symbols that are bound somewhere in the formula: replacing a
+    # symbol with one of them could capture it
+    bound = set()
+    if relevant:
+        seen = set()
+        stack = [formula]
+        while stack:
+            node = stack.pop()
+            if node in seen:
+                continue
+            seen.add(node)
+            if node.is_quantifier():
+                bound.update(node.quantifier_vars())
+            stack.extend(node.args())
+
     # check and build the mapping
     sigma = {}
     for k in relevant:
         v = disjoint_set.find(k)
+        if v in bound:
+            continue
         if k.node_id() != v.node_id():
             # early detection of a conflict
             if k.is_constant() and v.is_constant() and\
